@@ -845,6 +845,60 @@ func (r *rec) uciEvent(kind, fen string, ms []move.Move) {
 	}
 }
 
+// ucimoves: which move texts does `position fen F moves <text>` accept? Every from/to pair with every promotion
+// letter (and none) is tried in ONE driver session; a text was accepted iff the position changed.
+func (r *rec) ucimoves(corpus []string) {
+	for !r.full() {
+		fen := r.source(corpus, false)
+		root, err := board.FromFEN(fen)
+		if err != nil || root.InvalidPieceCount() {
+			continue
+		}
+		r.movesEvent(fen)
+	}
+}
+
+func (r *rec) movesEvent(fen string) {
+	root, _ := board.FromFEN(fen)
+	rp := proj.Project(root)
+	base := root.FEN()
+	var sb strings.Builder
+	var encs []int
+	for from := 0; from < 64; from++ {
+		for to := 0; to < 64; to++ {
+			for pi, pc := range []string{"", "n", "b", "r", "q"} {
+				promo := []int{0, 2, 3, 4, 5}[pi]
+				fmt.Fprintf(&sb, "position fen %s moves %c%c%c%c%s\nfen\n", fen, 'a'+from%8, '1'+from/8, 'a'+to%8, '1'+to/8, pc)
+				encs = append(encs, promo*4096+from*64+to)
+			}
+		}
+	}
+	// malformed texts must change nothing
+	junk := []string{"e2", "e2e", "e2e4qq", "e9e4", "i2e4", "e2e4k", "e2e4p", "e2e4x", "0000", "e2-e4", "E2E4"}
+	for _, j := range junk {
+		fmt.Fprintf(&sb, "position fen %s moves %s\nfen\n", fen, j)
+		encs = append(encs, -1)
+	}
+	sb.WriteString("quit\n")
+	lines := runUCI(sb.String(), nil)
+	if len(lines) != len(encs) {
+		panic(fmt.Sprintf("ucimoves: %d answers for %d questions", len(lines), len(encs)))
+	}
+	acc := []int{}
+	junkAccepted := 0
+	for i, l := range lines {
+		if l != base {
+			if encs[i] < 0 {
+				junkAccepted++
+			} else {
+				acc = append(acc, encs[i])
+			}
+		}
+	}
+	r.t++
+	r.emit(&Ev{Ev: "uciMoves", Fen: fen, Root: &rp, Acc: &acc, P1: &junkAccepted})
+}
+
 // uciperft: the driver's perft command (divide output + total) on sampled positions, depths 1 and 2
 func (r *rec) uciperft(corpus []string) {
 	for !r.full() {
@@ -923,6 +977,8 @@ func (r *rec) reevent(path string) {
 		r.uciEvent(e.Ev, e.Fen, toMoves(e.Moves))
 	case "uciPerft":
 		r.perftEvent(e.Fen)
+	case "uciMoves":
+		r.movesEvent(e.Fen)
 	case "transp":
 		run := func(seq []move.Move) string {
 			b, _ := board.FromFEN(e.Fen)
@@ -1104,6 +1160,8 @@ func main() {
 		r.ucirep(corpus, *plies)
 	case "uciperft":
 		r.uciperft(corpus)
+	case "ucimoves":
+		r.ucimoves(corpus)
 	case "reevent":
 		r.reevent(*in)
 	case "list":
